@@ -339,7 +339,7 @@ def run_check(prop, tier, seed, nproc=None):
     nproc = nproc or int(os.environ.get("SYMX_NPROC") or 0) or min(16, os.cpu_count() or 4)
     # wall-time sizing of the thorough tier: the per-job budgets are scaled so that the whole check fits the wall budget
     # (jobs that run out of their budget are reported as truncated: the bound of the claim, not a failure)
-    wall_cap = float(os.environ.get("SYMX_WALL_S") or 0) or (900.0 if tier == "thorough" else 0.0)
+    wall_cap = float(os.environ.get("SYMX_WALL_S") or 0) or (600.0 if tier == "thorough" else 0.0)
     budget_scale = 1.0
     if wall_cap:
         total = sum(j.get("budget_s", 600) for j in jobs)
